@@ -20,6 +20,18 @@ import time
 SCRATCH_BASE = os.environ.get('VERIF_SCRATCH', '/var/tmp')
 
 
+def extract_values(playback):
+    """Concrete values of the first generated test that belongs to a failed *assertion* (not a cover)."""
+    blocks = re.split(r'Concrete playback unit test for', playback)
+    for b in blocks[1:]:
+        if 'Check for `cover`' in b:
+            continue
+        vecs = re.findall(r'vec!\[([0-9,\s]*)\],', b)
+        if vecs:
+            return ';'.join(','.join(x.strip() for x in v.split(',') if x.strip()) for v in vecs)
+    return None
+
+
 def registry(root):
     p = os.path.join(root, 'kani', 'harnesses.json')
     if not os.path.exists(p):
@@ -47,7 +59,7 @@ def make_scratch(repo, root, entries, tag):
     if os.path.exists(d):
         shutil.rmtree(d)
     os.makedirs(d)
-    for item in ('src', 'Cargo.toml', 'Cargo.lock', 'tests'):
+    for item in ('src', 'Cargo.toml', 'Cargo.lock', 'tests', 'examples', 'README.md'):
         s = os.path.join(repo, item)
         if os.path.isdir(s):
             shutil.copytree(s, os.path.join(d, item))
@@ -65,19 +77,31 @@ def make_scratch(repo, root, entries, tag):
         with open(p, 'a') as fh:
             for f in sorted(files):
                 name = 'verif_proofs_' + os.path.splitext(f)[0]
-                fh.write('\n#[cfg(kani)]\n#[path = "%s"]\nmod %s;\n' % (os.path.join(root, 'kani', f), name))
+                fh.write('\n#[cfg(any(kani, verif_replay))]\n#[path = "%s"]\nmod %s;\n' % (os.path.join(root, 'kani', f), name))
+    with open(os.path.join(d, 'src', 'lib.rs'), 'a') as fh:
+        fh.write('\n#[cfg(verif_replay)]\n#[path = "%s"]\npub mod verif_replay_shim;\n' % os.path.join(root, 'kani', 'replay_shim.rs'))
     return d, None
 
 
 def parse_kani_output(out):
-    """Split cargo-kani output per harness."""
+    """Split cargo-kani output per harness (handles the `Thread N:` prefixes of -j runs, where each
+    thread prints its result block atomically)."""
     res = {}
+    cur_by_thread = {}
     cur = None
     for ln in out.split('\n'):
-        m = re.match(r'Checking harness ([\w:]+)\.\.\.', ln)
+        m = re.match(r'(?:Thread (\d+): )?Checking harness ([\w:]+)\.\.\.', ln)
         if m:
-            cur = m.group(1).split('::')[-1]
-            res[cur] = {'lines': [], 'status': None, 'time': None, 'failed_checks': []}
+            name = m.group(2).split('::')[-1]
+            res[name] = {'lines': [], 'status': None, 'time': None, 'failed_checks': []}
+            if m.group(1) is not None:
+                cur_by_thread[m.group(1)] = name
+            else:
+                cur = name
+            continue
+        m = re.match(r'Thread (\d+):\s*$', ln)
+        if m:
+            cur = cur_by_thread.get(m.group(1))
             continue
         if cur is None:
             continue
@@ -130,6 +154,7 @@ def run(pid, tier, repo, root, log):
             # failing harnesses: ask Kani for concrete values (playback) while the scratch copy exists
             per = parse_kani_output(raw['out'])
             raw['playback'] = {}
+            raw['native'] = {}
             for e in entries:
                 r = per.get(e['harness'])
                 if r and r['status'] == 'FAILED':
@@ -137,10 +162,28 @@ def run(pid, tier, repo, root, log):
                             '-Z', 'concrete-playback', '--concrete-playback=print', '--harness', e['harness']]
                     try:
                         pp = subprocess.run(pcmd, cwd=d, env=env, capture_output=True, text=True, timeout=900)
-                        raw['playback'][e['harness']] = pp.stdout[-6000:]
+                        raw['playback'][e['harness']] = pp.stdout[-8000:]
                     except subprocess.TimeoutExpired:
                         raw['playback'][e['harness']] = 'playback timed out'
-            if not raw.get('timeout'):
+                        continue
+                    vals = extract_values(raw['playback'][e['harness']])
+                    if vals is None:
+                        continue
+                    # replay the counterexample natively: same harness, real code, no model checker
+                    nenv = dict(os.environ, CARGO_NET_OFFLINE='true', CARGO_TARGET_DIR=os.path.join(d, 'target_native'),
+                                RUSTFLAGS='--cfg verif_replay -A unexpected_cfgs', VERIF_REPLAY_VALUES=vals)
+                    ncmd = ['cargo', 'test', '--offline', '--no-default-features', '--lib', e['harness'], '--', '--test-threads', '1']
+                    try:
+                        np_ = subprocess.run(ncmd, cwd=d, env=nenv, capture_output=True, text=True, timeout=900)
+                        out_n = np_.stdout[-3000:] + np_.stderr[-1500:]
+                        raw['native'][e['harness']] = {
+                            'cmd': 'VERIF_REPLAY_VALUES=%s RUSTFLAGS="--cfg verif_replay" %s' % (vals, ' '.join(ncmd)),
+                            'values': vals, 'output': out_n,
+                            'confirmed': (np_.returncode != 0 and 'panicked' in out_n and 'replay:' not in out_n),
+                        }
+                    except subprocess.TimeoutExpired:
+                        raw['native'][e['harness']] = {'values': vals, 'output': 'native replay timed out', 'confirmed': False}
+            if not raw.get('timeout') and per:
                 json.dump(raw, open(cpath, 'w'))
         finally:
             shutil.rmtree(d, ignore_errors=True)
@@ -167,12 +210,13 @@ def run(pid, tier, repo, root, log):
         else:
             ob['status'] = 'failed'
             pb = raw.get('playback', {}).get(e['harness'], '')
-            vals = re.findall(r'//\s*(.+)\n\s*vec!\[([^\]]*)\]', pb)
+            nat = raw.get('native', {}).get(e['harness'])
             out['failures'].append({
                 'id': e['id'], 'harness': e['harness'], 'failed_checks': r['failed_checks'],
-                'kani_output': txt[-3000:], 'concrete_playback': pb[-4000:],
-                'witness': '; '.join('%s=[%s]' % (a.strip(), b.strip()) for a, b in vals)[:1000],
-                'replayed': bool(vals),
+                'kani_output': txt[-3000:], 'concrete_playback': pb[-3000:],
+                'witness': (nat or {}).get('values', ''),
+                'native_replay': nat,
+                'replayed': bool(nat and nat.get('confirmed')),
             })
         ob['time_s'] = r['time']
         out['obligations'].append(ob)
@@ -197,7 +241,7 @@ def witness_for(oid, repo, root, log):
         shutil.rmtree(d)
     try:
         os.makedirs(d)
-        for item in ('src', 'Cargo.toml', 'Cargo.lock', 'tests'):
+        for item in ('src', 'Cargo.toml', 'Cargo.lock', 'tests', 'examples', 'README.md'):
             s = os.path.join(repo, item)
             if os.path.isdir(s):
                 shutil.copytree(s, os.path.join(d, item))
